@@ -22,6 +22,7 @@ type Case struct {
 	Entity   string           `json:"entity,omitempty"`
 	Cfg      []int            `json:"cfg,omitempty"`
 	Scale    int              `json:"scale,omitempty"`
+	Variant  int              `json:"variant,omitempty"` // non-period parameters scaled by variantFactor[Variant]
 	Lens     []int            `json:"lens,omitempty"`
 	Shape    int              `json:"shape,omitempty"`
 	DataSeed int64            `json:"data_seed,omitempty"`
@@ -283,6 +284,7 @@ type ReplayFile struct {
 	Case      *Case     `json:"case"`
 	Original  *Case     `json:"original_case,omitempty"`
 	Note      string    `json:"note"`
+	History   []*Case    `json:"history,omitempty"` // C09 process-history part: calls that ran earlier in the process
 }
 
 var raceMode = os.Getenv("VRACE") != ""
@@ -503,6 +505,9 @@ func replayMain() int {
 	}
 	if freeRunning {
 		return raceReplayMain(&rf)
+	}
+	if len(rf.History) > 0 {
+		return historyReplayMain(&rf, path)
 	}
 	st := newStats()
 	vs := ck.Run(rf.Case, st)
